@@ -5,6 +5,7 @@
        ev ::= (req c mt wok)           call c issues a request of type mt; WriteFcall succeeds iff wok
             | (resp t ty id)           the peer sends a reply frame with tag t, type ty, payload id
             | (burst n c0 mt)          n times: (req c mt 1) answered at once by (resp itstag mt+1 c), c = c0..c0+n-1
+            | (q c mt) | (hand) | (wrote) | (wfail)   the same in single steps (frames waiting in the queue)
             | (cancel c)               the context of call c ends; c returns
             | (fatal) | (ctxdone) | (exit)   reader fatal error / session context ends / loop returns
             | (ret c)                  pending call c returns now (after the transport closed)
@@ -177,6 +178,29 @@ Definition run_event (pl : bool) (rs : rstate) (e : sexp) : rstate :=
   else if head_is e "burst" then
     let '(rs, runs, good) := do_burst (N.to_nat (get_N (arg e 0))) rs (get_N (arg e 1)) (get_N (arg e 2)) [] 0 in
     push rs (SList [ssym "b"; sexp_of_runs runs; snat good])
+  (* fine-grained steps, for histories in which frames wait in the queue:
+     (q c mt) request taken and queued; (hand) oldest frame to the writer;
+     (wrote) its write succeeded; (wfail) its write failed *)
+  else if head_is e "q" then
+    let c := get_N (arg e 0) in
+    let '(rs, outs) := step_event (set_mt rs c (get_N (arg e 1))) (EReq c (get_N (arg e 1))) in
+    match outs with
+    | ODeliverErr _ _ :: _ => push_return rs c (call_returns rs c false)
+    | _ => push rs (ssym "none")
+    end
+  else if head_is e "hand" then let '(rs, _) := step_event rs EHand in push rs (ssym "none")
+  else if head_is e "wrote" then
+    let '(rs, outs) := step_event rs EWrote in
+    match outs with
+    | OFrame t _ _ :: _ => push rs (SList [ssym "f"; snat t])
+    | _ => push rs (ssym "none")
+    end
+  else if head_is e "wfail" then
+    let '(rs, outs) := step_event rs EWriteFailed in
+    match outs with
+    | ODeliverErr c _ :: _ => push_return rs c (call_returns rs c false)
+    | _ => push rs (ssym "none")
+    end
   else if head_is e "cancel" then
     let c := get_N (arg e 0) in
     let '(rs, _) := step_event rs (ECancel c) in
